@@ -49,4 +49,8 @@ m = {
     "notes": "See DESIGN.md. Exit codes: 0 held, 1 VIOLATION line, 2 harness error/timeout (not a verdict).",
 }
 (V / "MANIFEST.json").write_text(json.dumps(m, indent=1) + "\n")
+kf = []
+for f in sorted((V / "known_findings.d").glob("*.json")):
+    kf += json.loads(f.read_text())
+(V / "known_findings.json").write_text(json.dumps(kf, indent=1) + "\n")
 print(f"{len(checks)} checks, {len(na)} not claimed")
